@@ -47,6 +47,14 @@ def make_system(tag, names=None):
         return CompositeSystem([ElementalSystem((names or [0])[0], mb.get_normalized_hermitian_basis(2))])
     if tag == "Q3h":
         return CompositeSystem([ElementalSystem((names or [0])[0], mb.get_normalized_hermitian_basis(3))])
+    if tag == "Q1x":
+        # normalised Pauli basis with X FIRST: orthonormal Hermitian, first element has a constant (zero) diagonal but is not ~ identity
+        P = mb.get_normalized_pauli_basis()
+        return CompositeSystem([ElementalSystem((names or [0])[0], mb.MatrixBasis([np.array(P[k]) for k in (1, 0, 2, 3)]))])
+    if tag == "Q3x":
+        # normalised Gell-Mann basis with lambda_1 first
+        G = mb.get_normalized_gell_mann_basis()
+        return CompositeSystem([ElementalSystem((names or [0])[0], mb.MatrixBasis([np.array(G[k]) for k in (1, 0, 2, 3, 4, 5, 6, 7, 8)]))])
     if tag == "Q1c":
         return CompositeSystem([ElementalSystem((names or [0])[0], mb.get_comp_basis(2))])
     if tag.startswith("D"):
@@ -57,7 +65,7 @@ def make_system(tag, names=None):
 
 
 def dim_of(tag):
-    return {"Q1": 2, "Q3": 3, "Q3g": 3, "Q2": 4, "Q6": 6, "Q1u": 2, "Q1h": 2, "Q3h": 3, "Q1c": 2}[tag]
+    return {"Q1": 2, "Q3": 3, "Q3g": 3, "Q2": 4, "Q6": 6, "Q1u": 2, "Q1h": 2, "Q3h": 3, "Q1c": 2, "Q1x": 2, "Q3x": 3}[tag]
 
 
 # ---------------------------------------------------------------- spectra / hermitian alphabet
